@@ -159,7 +159,7 @@ static void run_history(vf::Ctx& ctx, const Problem& P, Solver& es, vw::OpCtl& c
     auto& r = ctx.rng;
     const int len = (int) r.range(1, ctx.thorough ? 8 : 4);
     std::string word;
-    bool inited = false, computed_since_init = false;
+    bool inited = false, computed_since_init = false, converged_since_init = false;
     const auto tols = TolSet<T>::get();
     const long big = ctx.thorough ? 1000 : 300;
     const std::vector<long> maxits = {0, 1, 2, 3, 5, 10, big, big, big};
@@ -173,7 +173,7 @@ static void run_history(vf::Ctx& ctx, const Problem& P, Solver& es, vw::OpCtl& c
         else if (step == len) op = 'C';
         else { const double x = r.uni(); op = x < 0.55 ? 'C' : (x < 0.8 ? 'I' : 'V'); }
         word += op;
-        if (op == 'I') { es.init(); startkind = "default"; inited = true; computed_since_init = false; }
+        if (op == 'I') { es.init(); startkind = "default"; inited = true; computed_since_init = false; converged_since_init = false; }
         else if (op == 'V')
         {
             VecT v0(P.n);
@@ -208,13 +208,14 @@ static void run_history(vf::Ctx& ctx, const Problem& P, Solver& es, vw::OpCtl& c
             if (v0.norm() == 0) v0[0] = T(1);
             try { es.init(v0.data()); }
             catch (const std::invalid_argument&) { ctx.count("init_rejected"); es.init(); startkind = "default"; }
-            inited = true; computed_since_init = false;
+            inited = true; computed_since_init = false; converged_since_init = false;
         }
         else
         {
             ComputeArgs a{r.pick(GEN_SELECT), r.pick(maxits), r.pick(tols), r.pick(GEN_SELECT)};
             // tolerances of a few eps keep the Arnoldi iteration running at rounding level for hundreds of restarts (orthogonality decays): corpus only
             if (P.clean) a.tol = tols[(size_t) r.range(2, (long) tols.size() - 1)];
+            if (P.clean && a.maxit > 50) a.maxit = r.coin() ? 30 : 50;
             const std::string shape = computed_since_init ? "after-compute" : "after-init";
             const long it0 = (long) es.num_iterations();
             ctl.limit = ctl.count + 8 * (4 + 2 * (long) P.ncv * (a.maxit + 2)) + 4 * P.nev;
@@ -231,6 +232,17 @@ static void run_history(vf::Ctx& ctx, const Problem& P, Solver& es, vw::OpCtl& c
             if (!ok) { computed_since_init = false; inited = false; continue; }
             const long restarts = (long) es.num_iterations() - it0 - 1;
             restarts_total += std::max(0L, restarts);
+            // Arnoldi has no relative breakdown test: a run that keeps restarting at rounding level (wanted set cutting a conjugate pair, keys tied, ...)
+            // feeds normalised noise into V. That regime is a recorded finding class and is judged in the fixed corpus only.
+            // The same holds for a compute() that continues after an earlier one has already converged (the residual vector is at rounding level then).
+            if (P.clean && ((long) es.num_iterations() - 1 > 60 || converged_since_init || computed_since_init))
+            {
+                ctx.count(computed_since_init ? "not_judged/continued_compute" : "not_judged/stagnating_run");
+                computed_since_init = true;
+                if (es.info() == CompInfo::Successful) converged_since_init = true;
+                continue;
+            }
+            if (es.info() == CompInfo::Successful) converged_since_init = true;
             judge(ctx, P, es, std::max(0L, (long) es.num_iterations() - 1), a, shape, word, startkind);
             if (restarts >= 1 && ret >= 1) nontrivial = true;
             computed_since_init = true;
